@@ -191,12 +191,30 @@ func Explore(prog *ssa.Program, entry *ssa.Function, cfg Config, opts ExploreOpt
 		}
 		mu.Unlock()
 	}
+	done := make(chan struct{})
+	if opts.Verbose {
+		go func() {
+			tk := time.NewTicker(5 * time.Second)
+			defer tk.Stop()
+			for {
+				select {
+				case <-done:
+					return
+				case <-tk.C:
+					mu.Lock()
+					fmt.Fprintf(os.Stderr, "  [%s] paths=%d queue=%d active=%d ends=%v unsupported=%d queries~%d\n", time.Since(t0).Round(time.Second), rep.Paths, len(stack), active, rep.Ends, len(rep.Unsupported), rep.Asserts)
+					mu.Unlock()
+				}
+			}
+		}()
+	}
 	var wg sync.WaitGroup
 	for i := 0; i < opts.Workers; i++ {
 		wg.Add(1)
 		go func() { defer wg.Done(); worker() }()
 	}
 	wg.Wait()
+	close(done)
 	rep.Wall = time.Since(t0)
 	sort.Slice(rep.Violations, func(i, j int) bool { return rep.Violations[i].Label < rep.Violations[j].Label })
 	return rep, firstErr
